@@ -1,6 +1,6 @@
 SPECIFICATION GenSpec
 CONSTANTS
-  Configs <- CfgsAll
+  Configs <- CfgsMix
   Heads <- HeadsPlain
   Levels = {}
   Calls = {}
